@@ -26,7 +26,7 @@ P["C01"] = dict(
         "R-SIGN-SLICE: every laea aspect (north/south polar) is reachable",
         "R-PARAM-MIRROR: (program slice) the values written by the forward and by the inverse function of every "
         "invertible operator depend on the same set of parameters",
-    ],
+             "R-ARG-SELECTION: at every call of a crate function no argument is a caller variable named like another same-typed parameter of the callee (exchanged arguments of equal type, e.g. qs(e, sinphi), chase(&locals, globals, key))"],
     not_decided=["numerical round-trip accuracy of any operator", "domain limits", "grid based shifts"],
     level="Decides structural clauses that are necessary conditions of 'inverse undoes forward' (see decides); does "
           "not decide the numerical round-trip accuracy of any operator.",
@@ -38,7 +38,8 @@ P["C05"] = dict(
     decides=["T-SERIES-CROSS: TM.fwd = RECT.fwd o CONF.inv and TM.inv = CONF.fwd o RECT.inv exactly to n^6 "
              "(northing on the central meridian is the scaled meridian arc)",
              "R-SIGN-SLICE: laea's polar aspect selection depends on the sign of lat_0 (all aspects reachable)",
-             "R-DIMENSION: (units-of-measure inference) every addition, subtraction and comparison in the ellipsoid geometry and in the operators with documented tuple conventions joins quantities of one physical dimension, transcendental functions get dimensionless arguments, and written tuple elements have the documented dimension (length / angle / time)"],
+             "R-DIMENSION: (units-of-measure inference) every addition, subtraction and comparison in the ellipsoid geometry and in the operators with documented tuple conventions joins quantities of one physical dimension, transcendental functions get dimensionless arguments, and written tuple elements have the documented dimension (length / angle / time)",
+             "R-ARG-SELECTION: at every call of a crate function no argument is a caller variable named like another same-typed parameter of the callee (exchanged arguments of equal type, e.g. qs(e, sinphi), chase(&locals, globals, key))"],
     not_decided=["conformality, equal-area and true-scale identities (differential statements over R^2)"],
     level="Decides two necessary table identities of the transverse Mercator geometry; the differential geometry "
           "of the projections is not decidable statically and is not claimed.",
@@ -53,7 +54,8 @@ P["C06"] = dict(
              "T-MERIDIAN: MERIDIAN_ARC_COEFFICIENTS[k] = binom(1/2,k)^2",
              "R-DIMENSION: (units-of-measure inference) every addition, subtraction and comparison in the ellipsoid geometry and in the operators with documented tuple conventions joins quantities of one physical dimension, transcendental functions get dimensionless arguments, and written tuple elements have the documented dimension (length / angle / time)",
              "R-UNIT-DIVISOR: no division by 1 - x*x with x a product of sines and cosines (|x| = 1 attained, e.g. on the equator) without a test of the divisor",
-             "R-ITER-CAP-AGREE: the geodesic operator tests the iteration count returned by geodesic_inv against a threshold below geodesic_inv's iteration cap (non-convergence is detectable)"],
+             "R-ITER-CAP-AGREE: the geodesic operator tests the iteration count returned by geodesic_inv against a threshold below geodesic_inv's iteration cap (non-convergence is detectable)",
+             "R-ARG-SELECTION: at every call of a crate function no argument is a caller variable named like another same-typed parameter of the callee (exchanged arguments of equal type, e.g. qs(e, sinphi), chase(&locals, globals, key))"],
     not_decided=["cartesian/geographic accuracy", "geodesic consistency", "closed-form agreement of series",
                  "identities among derived shape parameters"],
     level="Decides the table/series clauses of ellipsoid coherence exactly; numerical clauses are not claimed.",
@@ -88,7 +90,8 @@ P["C02"] = dict(
         "R-STACK-LOCAL: the pipeline stack is a fresh local per application",
              "R-TUPLE-LOOP-COMPLETE: a per-tuple loop is left only when its iterator is exhausted (no break/return in the body) and writes only the current tuple (no set-wide stomp in the body)",
              "R-PIPE-ORDER: the pipeline runs every step whatever the other tuples of the set did (no early exit)",
-             "R-DEFAULT-RMW: the default bulk setters of CoordinateSet hand the elements they do not set back as read"],
+             "R-DEFAULT-RMW: the default bulk setters of CoordinateSet hand the elements they do not set back as read",
+             "R-LOOP-CARRIED (extended): a counter or budget that is initialised before the per-tuple loop and consumed by an inner loop is state carried between tuples"],
     not_decided=["agreement of specialised container accessors with the trait defaults",
                  "bit-identity across containers (follows from determinism, not checked)"],
     level="Decides purity of the per-tuple computation (a necessary and, with immutability of Op, sufficient "
@@ -108,7 +111,9 @@ P["C07"] = dict(
              "cosines of the three angles (normal forms modulo s^2+c^2=1), for both conventions",
              "R-ALIAS-WIRING: element i of T/DT/R/DR comes from the i'th scalar alias or the i'th list element; "
              "S, DS from (scale|s), (scale_trend|ds)",
-             "R-DIMENSION: (units-of-measure inference) every addition, subtraction and comparison in the ellipsoid geometry and in the operators with documented tuple conventions joins quantities of one physical dimension, transcendental functions get dimensionless arguments, and written tuple elements have the documented dimension (length / angle / time)"],
+             "R-DIMENSION: (units-of-measure inference) every addition, subtraction and comparison in the ellipsoid geometry and in the operators with documented tuple conventions joins quantities of one physical dimension, transcendental functions get dimensionless arguments, and written tuple elements have the documented dimension (length / angle / time)",
+             "R-ELLPS-SHADOW: molodensky gives a supplied ellps_0 precedence over the defaulted ellps (which ParsedParameters::ellps(0) would otherwise prefer), so the source ellipsoid is the one asked for",
+             "R-RATE-PAIRING: the stored T, R, S depend only on their own aliases and their own rates (fold to t_obs); per tuple each parameter is advanced by dt times its own rate, and the scale is refreshed under the same conditions as the translation"],
     not_decided=["molodensky accuracy", "second-order inverse accuracy in small-angle mode",
                  "conversion constants (arc-seconds, ppm) beyond their wiring"],
     level="Decides the epoch-independence and untouched-time clauses; the algebraic clauses are not decided.",
@@ -127,7 +132,9 @@ P["C08"] = dict(
              "R-MULTIMAP: the NTv2 parent->children table is only ever extended",
              "R-GRID-INVARIANT: grids have at least 2 rows and 2 columns",
              "R-SUBGRID-KEPT: no NTv2 sub-grid record is dropped because of its position in the file (the deepest sub-grid can only be found if it was kept)",
-             "R-FULL-RANGE: the unit/band conversion loops of normalize_gravsoft_grid_values cover 0..grid.len()"],
+             "R-FULL-RANGE: the unit/band conversion loops of normalize_gravsoft_grid_values cover 0..grid.len()",
+             "R-ARG-SELECTION: at every call of a crate function no argument is a caller variable named like another same-typed parameter of the callee (exchanged arguments of equal type, e.g. qs(e, sinphi), chase(&locals, globals, key))",
+             "R-NULL-LAST: in grids_at the null grid answers only after the strict and the margin pass over all grids have failed"],
     not_decided=["bilinearity, continuity, NTv2 sub-grid selection values", "unit conventions"],
     level="Decides the 'outside all grids is failed' clause as a path property; interpolation numerics are not decided.",
     design_ref="DESIGN.md section 3, C08",
@@ -145,7 +152,8 @@ P["C10"] = dict(
              "R-ELEMENT-PRESERVE: for plane / 3D / single-element operators every written tuple keeps the elements "
              "the operator does not work on as copies of the same element of the tuple read",
              "R-TUPLE-LOOP-COMPLETE: per-tuple loops visit every tuple (no break/return in the body), so no tuple is left untransformed, uncounted and looking valid",
-             "R-ITER-CAP-AGREE: the non-convergence test of the geodesic operator can fire: threshold < iteration cap of geodesic_inv, applied to the count as returned"],
+             "R-ITER-CAP-AGREE: the non-convergence test of the geodesic operator can fire: threshold < iteration cap of geodesic_inv, applied to the count as returned",
+             "R-PLACEHOLDER: the stand-in for a missing inverse (InnerOp::default) writes nothing and returns the constant 0"],
     not_decided=["NaN propagation through arithmetic", "which inputs are inside the domain"],
     level="Decides the counting/NaN discipline and untouched-axes clauses as all-paths properties of the operator "
           "loops; numerical domain questions are not decided.",
@@ -166,7 +174,8 @@ P["C04"] = dict(
              "R-CHASE-ORDER: chase searches locals before globals", "R-INV-SOURCE: inverted invocations are detected "
              "from the parameter map", "R-LOOKUP-FRESH: a search with a changing key runs on a fresh iterator "
              "(fails today: known finding)",
-             "R-CHASE-CALLS: every typed extraction calls chase(globals, &locals, key) with the maps in this order"],
+             "R-CHASE-CALLS: every typed extraction calls chase(globals, &locals, key) with the maps in this order",
+             "R-ARG-SELECTION: at every call of a crate function no argument is a caller variable named like another same-typed parameter of the callee (exchanged arguments of equal type, e.g. qs(e, sinphi), chase(&locals, globals, key))"],
     not_decided=["that $name, $name(d), (d) forms evaluate to the documented values", "precedence of values",
                  "equivalence of an invocation with its textual expansion", "stack frame sizes (101 levels assumed to fit)"],
     level="Decides termination of macro resolution (bounded recursion, terminating loops) as a structural proof "
@@ -205,7 +214,8 @@ P["C12"] = dict(
              "R-UNDERFLOW-GUARD: every stack access is preceded by a depth test whose failing side stomps and returns 0",
              "R-STACK-LOCAL: the stack is a fresh local of each application; no persistent storage of stack type",
              "R-PIPE-MIN: an underflow (0) in any step makes the pipeline report 0",
-             "R-UNDERFLOW-GUARD/exact: the depth tests are strict (`depth < demand` fails), a program needing exactly the available depth is not an underflow"],
+             "R-UNDERFLOW-GUARD/exact: the depth tests are strict (`depth < demand` fails), a program needing exactly the available depth is not an underflow",
+             "R-ARG-SELECTION: at every call of a crate function no argument is a caller variable named like another same-typed parameter of the callee (exchanged arguments of equal type, e.g. qs(e, sinphi), chase(&locals, globals, key))"],
     not_decided=["abstract-machine equivalence of the primitives", "constructor-time numeric validation"],
     level="Decides that the dispatch tables are total and read the right keys; the machine semantics are only "
           "partially decided (see DESIGN.md).",
@@ -250,7 +260,8 @@ P["C03"] = dict(
              "R-PIPE-OWN-PARAMS: the pipeline constructor does not tokenize the text of its steps as its own parameter "
              "list (step modifiers cannot become modifiers of the enclosing pipeline)",
              "R-INV-HANDLED: every operator Op::op obtains from a constructor (user registered or built-in) passes through handle_op_inversion",
-             "R-MODIFIER-ROTATE: the tokenizer rotates leading modifiers behind the operator name in a loop that re-tests the first element (several prefix modifiers, as produced by `<`/`>` plus inv)"],
+             "R-MODIFIER-ROTATE: the tokenizer rotates leading modifiers behind the operator name in a loop that re-tests the first element (several prefix modifiers, as produced by `<`/`>` plus inv)",
+             "R-CHASE-CALLS: omit_fwd and omit_inv are looked up independently - each look-up lies on every path to the parsed result"],
     not_decided=["</> desugaring and modifier rotation in the tokenizer", "bit-identity with stand-alone application "
                  "(follows from the shape but is not separately checked)", "omit_* leaking through globals"],
     level="Decides the interpreter's structure (order, duality, tally, modifier plumbing) on all paths; the "
@@ -328,7 +339,8 @@ P["C14"] = dict(
              "(tables from different papers agree exactly to n^6)",
              "R-DIMENSION: (units-of-measure inference) every addition, subtraction and comparison in the ellipsoid geometry and in the operators with documented tuple conventions joins quantities of one physical dimension, transcendental functions get dimensionless arguments, and written tuple elements have the documented dimension (length / angle / time)",
              "R-PARAM-MIRROR: forward and inverse of the operators that wrap ellipsoid methods depend on the same parameters (same ellipsoid in both directions)",
-             "R-WRAPPER-DISPATCH: each variant (flag / action) of the latitude, curvature and gravity operators applies exactly the ellipsoid method documented for it, forward and inverse (the operator and the method are the same route)"],
+             "R-WRAPPER-DISPATCH: each variant (flag / action) of the latitude, curvature and gravity operators applies exactly the ellipsoid method documented for it, forward and inverse (the operator and the method are the same route)",
+             "R-ARG-SELECTION: at every call of a crate function no argument is a caller variable named like another same-typed parameter of the callee (exchanged arguments of equal type, e.g. qs(e, sinphi), chase(&locals, globals, key))"],
     not_decided=["every numerical agreement listed in the statement (tmerc vs btmerc, cart vs geocart inverse, "
                  "series vs closed forms and quadrature)"],
     level="Decides wiring agreement between independent routes; numerical agreement is not decided.",
@@ -341,7 +353,8 @@ P["C16"] = dict(
              "constructor, or implicit; so a declared flag is what the operator consults ('flags are true when present')",
              "R-TYPED-EXTRACT: in ParsedParameters::new each OpParameter variant is parsed by the parser of the declared type (usize / i64 / parse_sexagesimal / none) and naturals and integers are stored unconverted",
              "R-SIGN-CARRIER: parse_sexagesimal takes the sign of the angle from the sign bit (signum) of the degrees field whose magnitude it uses, so -0:30 keeps its sign",
-             "R-MODIFIER-ROTATE: position of modifiers - every leading modifier is rotated behind the name, not only the first"],
+             "R-MODIFIER-ROTATE: position of modifiers - every leading modifier is rotated behind the name, not only the first",
+             "R-ELLPS-SHADOW: a declared ellps_0 is not dead behind the always-present default of ellps"],
     not_decided=["idempotence of normalize and equivalence of differently formatted texts (string rewriting on all "
                  "inputs)", "parsing of each value type", "defaults, required parameters, last-wins, unknown keys ignored"],
     level="Decides only the declaration/use agreement clause of 'parameters are typed as declared'; the tokenizer's "
